@@ -30,7 +30,7 @@ FILTERS = ["path_length", "start_end_distance", "cut_percentile_shortest", "trun
            "remove_duplicates", "custom_maze_filter", "collect_generation_meta"]
 THRESHOLDS = {"quick": {**{f"c08:filter:{f}": 100 for f in FILTERS}, "c08:empty-result": 20, "c08:all-kept": 20, "c08:proper-subset": 300,
                         "c08:boundary:all-equal-lengths": 20, "c08:boundary:near-dup-at-thr": 20, "c08:boundary:near-dup-at-thr+1": 20,
-                        "c08:boundary:dup-first-last": 20, "c08:boundary:dup-adjacent": 20, "c08:sequences": 100,
+                        "c08:boundary:dup-first-last": 20, "c08:boundary:dup-adjacent": 20, "c08:boundary:dup-other-dtype": 20, "c08:sequences": 100,
                         "c08:from_config": 40, "c08:input-unchanged-checked": 1000, "c08:provenance-checked": 1000}}
 THRESHOLDS["thorough"] = dict(THRESHOLDS["quick"])
 ANCHORS = ["maze_dataset.dataset.maze_dataset:register_maze_filter", "maze_dataset.dataset.dataset:register_dataset_filter",
@@ -172,13 +172,23 @@ def near_dups(rng, g, n, thr):
     return items, tags
 
 
-def make_ds(items, g, name, meta=False):
+def make_ds(items, g, name, meta=False, int8_idx=()):
+    """int8_idx: positions whose solution array is stored as int8 - the dtype mazes have after a trip through the compact
+    on-disk formats; values, and therefore equality, are the same"""
     from maze_dataset import MazeDataset, MazeDatasetConfig
+    from maze_dataset.maze.lattice_maze import SolvedMaze
 
     with warnings.catch_warnings():
         warnings.simplefilter("ignore")
         cfg = MazeDatasetConfig(name=name, grid_n=g, n_mazes=len(items))
-        return MazeDataset(cfg, [lib.solved(cl, p, meta=(dict(func_name="h", k=i % 3, flag=bool(i % 2)) if meta else None)) for i, (cl, p) in enumerate(items)])
+        mazes = []
+        for i, (cl, p) in enumerate(items):
+            mt = dict(func_name="h", k=i % 3, flag=bool(i % 2)) if meta else None
+            if i in int8_idx:
+                mazes.append(SolvedMaze(connection_list=np.array(cl, dtype=bool), solution=np.array(p, dtype=np.int8), generation_meta=mt))
+            else:
+                mazes.append(lib.solved(cl, p, meta=mt))
+        return MazeDataset(cfg, mazes)
 
 
 def is_long(maze, min_len=3):
@@ -282,10 +292,17 @@ def run(ctx):
             n = int(rng.integers(1, 13))
             items, tags = build(rng, g, n, mode)
         key = f"ds{j}"
-        case = dict(key=key, mode=mode, grid_n=g, n=len(items))
+        int8_idx = ()
+        if mode == "dups" and j % 2 == 0 and len(items) >= 2:
+            # the duplicate copies come from another storage dtype (fresh int64 mazes merged with the same mazes read back as int8)
+            int8_idx = (len(items) - 1, 2)
+            tags = set(tags) | {"dup-other-dtype"}
+        case = dict(key=key, mode=mode, grid_n=g, n=len(items), int8_positions=list(int8_idx))
+        _mk = make_ds
+        make_ds_j = lambda items_, g_, key_, **kw: _mk(items_, g_, key_, int8_idx=int8_idx, **kw)  # noqa: E731
         # ---- single applications across boundary parameters -------------------
         for t in range(8 if ctx.quick else 12):
-            ds = make_ds(items, g, key)
+            ds = make_ds_j(items, g, key)
             if mode == "near" and t < 3:
                 name, args, kwargs = "remove_duplicates", [], dict(minimum_difference_connection_list=thr, minimum_difference_solution=None)
             elif mode == "dups" and t < 2:
@@ -294,7 +311,7 @@ def run(ctx):
                 name, args, kwargs = draw_filter(rng, snapshot_data(ds), thr)
             apply_and_check(ctx, ds, name, args, kwargs, case, tags if t < 3 else set())
         # ---- custom predicates --------------------------------------------------
-        ds = make_ds(items, g, key)
+        ds = make_ds_j(items, g, key)
         data = snapshot_data(ds)
         cfg_before = cfg_fields(ds.cfg)
         for pred, kw, expf in ((is_long, dict(min_len=int(rng.integers(1, 6))), None), (starts_top, {}, None)):
@@ -309,7 +326,7 @@ def run(ctx):
                           "C08/custom_maze_filter/provenance-wrong", f"{af}", case)
                 ctx.check(out.cfg.n_mazes == len(out), "C08/custom_maze_filter/n_mazes-not-updated", "", case)
         # ---- sequences -------------------------------------------------------------
-        ds = make_ds(items, g, key)
+        ds = make_ds_j(items, g, key)
         cur = ds
         seq = []
         for _ in range(int(rng.integers(1, 6))):
